@@ -629,3 +629,25 @@ func splitTop(s string) []string {
 	}
 	return out
 }
+
+// hasTaggedClause: does the contract have clauses named "Cnn_..." (clauses that
+// belong to one property only)?
+func (c *Contract) hasTaggedClause() bool {
+	tagged := func(cls []*Clause) bool {
+		for _, cl := range cls {
+			if propTagRe.MatchString(cl.Name) {
+				return true
+			}
+		}
+		return false
+	}
+	if tagged(c.Ensures) || tagged(c.Guarantees) || tagged(c.OnPanic) {
+		return true
+	}
+	for _, l := range c.Loops {
+		if tagged(l.Invariants) {
+			return true
+		}
+	}
+	return false
+}
